@@ -392,7 +392,16 @@ func (c *otApplyContext) initIters() {
 
 func (c *otApplyContext) setLookupMask(mask GlyphMask) {
 	c.lookupMask = mask
+	c.resetLastBase()
 	c.initIters()
+}
+
+// resetLastBase forgets the base glyph cached by the mark attachment lookups :
+// the search depends on the lookup (base coverage), so the cache is only valid
+// inside one lookup.
+func (c *otApplyContext) resetLastBase() {
+	c.lastBase = -1
+	c.lastBaseUntil = 0
 }
 
 func (c *otApplyContext) setLookupProps(lookupProps uint32) {
